@@ -2,6 +2,7 @@ package wm
 
 import (
 	"fmt"
+	"go/types"
 
 	"golang.org/x/tools/go/ssa"
 )
@@ -123,7 +124,7 @@ func c06CloseResult(c *Check, P string, r *RouterRoles2) {
 	closedTrue, _ := BoolEdges(Cl, func(v ssa.Value) bool { return AllOrigins(v, IsFieldLoad(r.ClosedF)) })
 	c.Floor(P+".O3", "test of the wait helper's result in Close (or its error returned as it is)", len(notTimedOut)+tailReturns(Cl, ResultOfAny(waits, 0)), 1)
 	for i, ret := range Returns(Cl) {
-		for _, v := range Origins(ret.Results[0]) {
+		for _, v := range RetOrigins(ret, 0) {
 			if IsNilConst(v) {
 				c.Report(GuardedBy(Cl, ret, append(append([]Edge{}, notTimedOut...), closedTrue...)), P+".O3", "NIL-ONLY-IF-WAITED", Cl, ret.Pos(), fmt.Sprintf("return#%d", i),
 					"Close returns nil only on the edge where the wait did not time out (or the router was already closed)")
@@ -145,7 +146,7 @@ func c06CloseResult(c *Check, P string, r *RouterRoles2) {
 		ok := true
 		for _, ret := range Returns(Cl) {
 			if re[ret] {
-				for _, v := range Origins(ret.Results[0]) {
+				for _, v := range RetOrigins(ret, 0) {
 					if IsNilConst(v) {
 						ok = false
 					}
@@ -165,7 +166,7 @@ func c06CloseResult(c *Check, P string, r *RouterRoles2) {
 				if RetNil(ret, 0) {
 					c.Report(len(tFalse) > 0 && GuardedBy(W, ret, tFalse), P+".O3", "WAIT-RESULT", W, ret.Pos(), "return nil", "the wait helper answers nil only when WaitGroupTimeout said 'finished'")
 				} else {
-					os := Origins(ret.Results[0])
+					os := RetOrigins(ret, 0)
 					c.Report(len(tTrue) > 0 && GuardedBy(W, ret, tTrue) && len(os) > 0 && allOf(os, func(v ssa.Value) bool { return ProvablyNonNil(v, func(ssa.Value) bool { return false }) }), P+".O3", "WAIT-RESULT", W, ret.Pos(), "return error", "the wait helper answers with a non-nil error exactly when WaitGroupTimeout said 'timed out'")
 				}
 			}
@@ -272,7 +273,7 @@ func c06CloseResult(c *Check, P string, r *RouterRoles2) {
 	c.Report(okShape && timeEdge != nil && doneEdge != nil, P+".O3", "TIMEOUT-HELPER-SHAPE", wt, si.Sel.Pos(), "select", "WaitGroupTimeout is a blocking select over exactly {wait finished, time.After(timeout)}")
 	if timeEdge != nil && doneEdge != nil {
 		for i, ret := range Returns(wt) {
-			for _, v := range Origins(ret.Results[0]) {
+			for _, v := range RetOrigins(ret, 0) {
 				cst, ok := v.(*ssa.Const)
 				if !ok || cst.Value == nil {
 					c.Undecided(P+".O3", "TIMEOUT-HELPER-RESULT", wt, ret.Pos(), fmt.Sprintf("return#%d", i), "non-constant result")
@@ -419,7 +420,7 @@ func c06RunAfterClose(c *Check, P string, r *RouterRoles2) {
 	}
 	c.Floor(P+".O5", "receive from the 'closed' channel in Run", len(recvClosed), 1)
 	for i, ret := range Returns(Run) {
-		for _, v := range Origins(ret.Results[0]) {
+		for _, v := range RetOrigins(ret, 0) {
 			if IsNilConst(v) {
 				ok := false
 				for _, rc := range recvClosed {
@@ -540,13 +541,45 @@ func c06NotBypassed(c *Check, P string, r *RouterRoles2) {
 	// the router-closing case leads to subscriber.Close()
 	var polls []Edge
 	nCase := 0
+	// the closing signal is only ever closed, never sent on: once a receive from it succeeded, a later poll of it
+	// (select with default) cannot take the default branch
+	closeOnly := true
+	for _, f := range c.P.SrcFuncs("message") {
+		AllInstrs(f, func(in ssa.Instruction) {
+			switch x := in.(type) {
+			case *ssa.Send:
+				if AnyOrigin(x.Chan, func(o ssa.Value) bool { return IsFieldLoad(r.HCloseCh)(o) || IsFieldLoad(r.ClosingCh)(o) }) {
+					closeOnly = false
+				}
+			case *ssa.Select:
+				for _, st := range x.States {
+					if st.Dir == types.SendOnly && AnyOrigin(st.Chan, func(o ssa.Value) bool { return IsFieldLoad(r.HCloseCh)(o) || IsFieldLoad(r.ClosingCh)(o) }) {
+						closeOnly = false
+					}
+				}
+			}
+		})
+	}
+	var rePolls []Edge
+	if closeOnly {
+		for _, si := range Selects(W) {
+			if si.Blocking || si.Default == nil {
+				continue
+			}
+			for _, cs := range si.Cases {
+				if !cs.Send && isCloseCh(cs.Chan) {
+					rePolls = append(rePolls, *si.Default)
+				}
+			}
+		}
+	}
 	for _, si := range Selects(W) {
 		for _, cs := range si.Cases {
 			if cs.Send || !isCloseCh(cs.Chan) || cs.Edge == nil {
 				continue
 			}
 			nCase++
-			re := ReachEdge(*cs.Edge, NewCut().AddInstrs(closes...))
+			re := ReachEdge(*cs.Edge, NewCut().AddInstrs(closes...).AddEdges(rePolls...))
 			ok := true
 			for _, ret := range Returns(W) {
 				if re[ret] {
